@@ -702,3 +702,63 @@ func VerifC03DeleteComputedSelection() {
 	verifAssert(want != "" && verifEqStr(got, want), "C03/delete-of-a-computed-value-removed-something-else "+label)
 	verifCover("C03/computed/end")
 }
+
+// VerifC03SameSpelledKeys: a map whose keys 1 (an integer) and "1" (a string) are spelt alike has two entries for
+// every operator that walks the entries: the splat yields each value, del of a selection by value removes exactly the
+// entries with that value, del(.[]) leaves the empty map, an update of every value reaches every entry.
+func VerifC03SameSpelledKeys() {
+	v := [3]string{verifStrN("v1", 1, "03"), verifStrN("v2", 1, "03"), verifStrN("v3", 1, "03")}
+	q := verifStrN("q", 1, "03")
+	order := verifChoice("order", 2)
+	build := func() *CandidateNode {
+		if order == 0 {
+			return vDoc(vMap(vS("!!int", "1"), vInt(v[0]), vStr("1"), vInt(v[1]), vStr("c"), vInt(v[2])))
+		}
+		return vDoc(vMap(vStr("1"), vInt(v[0]), vStr("c"), vInt(v[1]), vS("!!int", "1"), vInt(v[2])))
+	}
+	keyDump := func(i int) string {
+		ks := [2][3]string{{"<!!int 1>", "<!!str 1>", "<!!str c>"}, {"<!!str 1>", "<!!str c>", "<!!int 1>"}}
+		return ks[order][i]
+	}
+	switch verifChoice("op", 4) {
+	case 0:
+		res, err := vEval(vParse("[.[]]"), build())
+		verifAssert(err == nil && res.Len() == 1 && len(res.Front().Value.(*CandidateNode).Content) == 3, "C03/splat-of-a-map-misses-an-entry same-spelled-keys")
+	case 1:
+		res, err := vEval(vParse("del(.[])"), build())
+		verifAssert(err == nil && res.Len() == 1 && vDump(res.Front().Value.(*CandidateNode)) == "{}", "C03/del-of-every-entry-leaves-entries same-spelled-keys")
+	case 2:
+		e := vParse("del(.[] | select(. == 7770003))")
+		vSubst(e, "7770003", "!!int", q)
+		res, err := vEval(e, build())
+		verifAssert(err == nil && res.Len() == 1, "C03/del-error same-spelled-keys")
+		if err != nil || res.Len() != 1 {
+			return
+		}
+		want := "{"
+		first := true
+		for i := 0; i < 3; i++ {
+			if verifConcreteBool(verifEqStr(v[i], q)) {
+				continue
+			}
+			if !first {
+				want += ", "
+			}
+			first = false
+			want += keyDump(i) + ": <!!int " + v[i] + ">"
+		}
+		want += "}"
+		got := vDump(res.Front().Value.(*CandidateNode))
+		verifObserve("got", got)
+		verifAssert(verifEqStr(got, want), "C03/exactly-the-selection same-spelled-keys")
+	default:
+		d := build()
+		_, err := vEval(vParse(".[] |= 9"), d)
+		ok := err == nil
+		for i := 0; ok && i < 3; i++ {
+			ok = d.Content[2*i+1].Value == "9"
+		}
+		verifAssert(ok, "C03/update-of-every-value-misses-an-entry same-spelled-keys")
+	}
+	verifCover("C03/same-spelled/end")
+}
